@@ -1860,7 +1860,7 @@ theorem C05_solve_machinery_multisig (w : Wrap) (a : SolveArgs) (ctx : VM.TxCtx)
         | .ok items =>
           match pushAll (wrapPushes w (multisigScriptN m keys) items) with
           | .error e => .error e
-          | .ok sc => .ok (sc, if w.witness then some (items.filterMap id ++ [multisigScriptN m keys]) else none) :=
+          | .ok sc => .ok (sc, if w.witness then some (items ++ [some (multisigScriptN m keys)]) else none) :=
   solve_wrap w a ctx _ _ (baseOK_multisig a ph hph m keys hm1 hmn hn hkeys) script witness hk hsz
     (scriptHash_multisig m keys (by omega)) (version_multisig m keys hm1 (by omega) (by omega) hkeys)
 
@@ -1903,7 +1903,7 @@ theorem C05_solve_machinery_p2wpkh (a : SolveArgs) (ctx : VM.TxCtx) (prog ph : B
       | .ok existing =>
         match solveBase a.C a.lookup (a.sighash true (p2pkhScript prog)) existing a.ht a.placeholder (.p2pkh prog) with
         | .error e => .error e
-        | .ok items => .ok ([], some (items.filterMap id)) :=
+        | .ok items => .ok ([], some items) :=
   solve_p2wpkh a ctx prog ph hph script witness hlen
 
 /-- **… P2SH-P2WPKH** -/
@@ -1919,7 +1919,7 @@ theorem C05_solve_machinery_p2sh_p2wpkh (a : SolveArgs) (ctx : VM.TxCtx) (h prog
         | .ok items =>
           match pushAll [some (witnessV0Script prog)] with
           | .error e => .error e
-          | .ok sc => .ok (sc, some (items.filterMap id)) :=
+          | .ok sc => .ok (sc, some items) :=
   solve_p2sh_p2wpkh a ctx h prog ph hph script witness hlen hplen hl
 
 /-- **Unsolvable ⇒ untouched.**  Whatever the puzzle: when the machinery ends with an exception `Solver.sign` catches
@@ -1940,7 +1940,9 @@ theorem C05_solve_machinery_frame (a : SignArgs) (ctx : Nat → VM.TxCtx) (us : 
     · simp only [hv, Bool.false_eq_true, if_false] at h
       split at h
       · cases h; exact Or.inr ⟨tin, _, tin.witness, rfl, by simpa using hv, rfl⟩
-      · cases h; exact Or.inr ⟨tin, _, _, rfl, by simpa using hv, rfl⟩
+      · split at h
+        · cases h; exact Or.inr ⟨tin, _, _, rfl, by simpa using hv, rfl⟩
+        · cases h
       · split at h
         · cases h; exact Or.inl rfl
         · cases h
@@ -1982,7 +1984,7 @@ theorem C05_solve_machinery_multisig_end_to_end (w : Wrap) (coin : Coin) (tx : T
     ∃ sgn : Nat → Bool, card keys.reverse.length sgn = m ∧ (∀ i, sgn i = true → inTOf lookup keys.reverse i = true) ∧
       Solve.solve (machineryArgs coin tx us idx lookup p2sh ht ph) ctx (w.spk (multisigScriptN m keys)) [] [] =
         .ok (w.scriptSig (multisigScriptN m keys) (stateSolved keys.reverse.length m sg ph sgn),
-             if w.witness then some (w.wit (multisigScriptN m keys) (stateSolved keys.reverse.length m sg ph sgn)) else none) ∧
+             if w.witness then some ((w.wit (multisigScriptN m keys) (stateSolved keys.reverse.length m sg ph sgn)).map some) else none) ∧
       verifyScript (realChk coin tx us idx)
         (w.scriptSig (multisigScriptN m keys) (stateSolved keys.reverse.length m sg ph sgn))
         (w.spk (multisigScriptN m keys))
@@ -2012,7 +2014,7 @@ theorem C05_solve_machinery_p2wpkh_end_to_end (coin : Coin) (tx : Tx) (us : List
     (hz : modelSighash coin tx us idx true (p2pkhScript h) ht = some z)
     (hsign : ∃ r s, secp256k1Crypto.sign d z = .ok (r, s))
     (hw : flags.witness = true) (hht : ht ≤ 255) (hstd : standardHashType ht ∨ flags.strictenc = false) :
-    ∃ sig, Solve.solve (machineryArgs coin tx us idx lookup p2sh ht ph) ctx (witnessV0Script h) [] [] = .ok ([], some [sig, key]) ∧
+    ∃ sig, Solve.solve (machineryArgs coin tx us idx lookup p2sh ht ph) ctx (witnessV0Script h) [] [] = .ok ([], some [some sig, some key]) ∧
       verifyScript (realChk coin tx us idx) [] (witnessV0Script h) [sig, key] flags txc = none := by
   obtain ⟨sig, hsolve, hver⟩ := C05_p2wpkh_end_to_end coin tx us idx lookup ph d x y z key h ht flags txc hpub hkey hh hlen htrue
     hl hz hsign hw hht hstd
@@ -2020,7 +2022,6 @@ theorem C05_solve_machinery_p2wpkh_end_to_end (coin : Coin) (tx : Tx) (us : List
   rw [C05_solve_machinery_p2wpkh _ ctx h ph [] [] rfl hlen, existingScript_fresh]
   simp only [machineryArgs]
   rw [hsolve]
-  rfl
 
 /-- **P2PKH, end to end, from the machinery** (hypotheses of `C05_p2pkh_end_to_end`). -/
 theorem C05_solve_machinery_p2pkh_end_to_end (coin : Coin) (tx : Tx) (us : List (Option TxOut)) (idx : Nat) (lookup : Lookup)
